@@ -7,6 +7,9 @@ Harness functions return one of
 The checked postcondition is `_ != 0`; the reachability twin's is `_ != 2` (it must be refuted).
 """
 import collections
+import os
+
+_UNDER_CH = os.environ.get("VERIF_UNDER_CROSSHAIR") == "1"
 
 VIOL, SKIP, OK = 0, 1, 2
 
@@ -48,5 +51,11 @@ def skip(label="skip"):
 
 def viol(*what):
     COUNTS["VIOL"] += 1
-    DETAIL.append(" ".join(str(w) for w in what))
+    if not _UNDER_CH:
+        # messages are only built in concrete replays: formatting symbolic operands under CrossHair
+        # can raise ("proxy intolerance") and would turn a refutation into an unknown path
+        try:
+            DETAIL.append(" ".join(str(w) for w in what))
+        except Exception as e:
+            DETAIL.append("violation (message could not be formatted: %s)" % type(e).__name__)
     return VIOL
